@@ -1594,6 +1594,13 @@ TRUSTED = [
     "start + sum(index_k * stride_k) of the base buffer; ascontiguousarray = the elements in C order; tobytes()), numpy.zeros + fread "
     "filling the output array; ASCII view of str.strip/upper/lower; eval of the SIZE value modelled for blank-padded decimal digits only; "
     "user keys that the case-insensitive reader takes for _delim/_dtype in another spelling are counted among the reserved names (Spec.user_key_ok)",
+    "many-rows family (2^k, 2^k+-1 rows, k=10..17, 100003): the table, the data region of the file the real code wrote and the rows it "
+    "read back enter Coq as arithmetic-progression runs produced by a generic lossless encoder (ap_encode; decoder Big.dec_runs; the "
+    "encoder's losslessness is checked in Python on every use) and are compared INSIDE Coq as decoded byte lists, with readers proved equal "
+    "to the model's (C01_fast_readers_are_model); when a read-back is too irregular to be printed as <= 300 runs, a 4-row literal window "
+    "around the first differing row (located in Python) is judged in Coq and the verdict can never be 0",
+    "every call into the real esutil runs in a forked worker process (one per entry point): a segfault/abort/hang of the C extension is "
+    "recorded as the outcome of that case (failing input) instead of killing the check",
     "python harness (harness/props/C01.py): generators, drivers, observation of pformat/eval by shadowing the names `pprint`/`eval` in "
     "esutil.sfile's module namespace (no change to the code under test), literal printers, coqc evaluating Exec.v verdict terms",
 ]
@@ -1601,7 +1608,8 @@ TRUSTED = [
 
 def run(ctx, replay=None):
     ctx.rule = ("corpus (witnesses of the two repaired defects) + adversarial families of the quantifier (END/SIZE/TREND, quotes, newlines, "
-                "wrapping, reserved and near-reserved keys, every base type x sub-array rank x byte order, every memory layout of the array: "
+                "wrapping, printf directives, reserved and near-reserved keys, many rows (2^k, 2^k+-1 around C/stdio block sizes, up to 131073), "
+                "every base type x sub-array rank x byte order, every memory layout of the array: "
                 "strided/reversed/offset/transposed/n-d/0-d/recarray) + seeded random tables/headers per entry point; each case is written and "
                 "read back by the real esutil and evaluated in Coq (model file bytes = real file bytes, scanner, eval text, _make_header dict, "
                 "rows; verified checker on the read-back).  non-trivial: >= 2 fields, >= 2 rows, >= 1 multi-byte field and a non-empty user "
